@@ -31,6 +31,7 @@ func rulesC05(c *Ctx, r *Report) {
 	rulesNewickWriter(c, r)
 	rulesNewickChildren(c, r)
 	rulesPassAllFor(c, r, "formats/newick", 2)
+	rulesNoBufferedPkg(c, r, "formats/newick")
 }
 
 // replaceAllOf finds strings.ReplaceAll(x, from, to) calls reachable (by dominance) on the given edge of cond.
